@@ -1,7 +1,8 @@
 (* Theorems about database operations issued from compiled code (DbProg.v), for every program, every
    body, every store and every nesting of suspended goals (a goal is suspended while the rest of the
    body - which may contain further goals and updates on the same predicate - runs for one of its
-   answers):
+   answers; bodies with !, fail, ( A ; B ), ( C -> T ; E ), \+ C: the updates made in branches that a cut or a
+   commit discards are part of the trace and of the fold - alt_post holds whatever the flags are):
 
    - the trace of a run is a sequence of ATOMIC LIST OPERATIONS, each applied to the list that is current
      when it happens: an assert conses/appends one new Answer, an answer of retract deletes one Answer
@@ -211,33 +212,42 @@ Proof.
 Qed.
 
 Definition good_rec (rec : list goal -> store -> glob -> res) : Prop :=
-  forall gs s g g' a tr, ids_ok (gdb g) (gid g) -> rec gs s g = Some (g', a, tr) -> post g g' tr.
+  forall gs s g g' a tr c, ids_ok (gdb g) (gid g) -> rec gs s g = Some (g', a, tr, c) -> post g g' tr.
+
+(* the combinators of the search, whatever the flags are *)
+Lemma alt_post lv (x : res) (f : glob -> res) g g' a tr c :
+  ids_ok (gdb g) (gid g) ->
+  (forall g1 a1 t1 c1, x = Some (g1, a1, t1, c1) -> post g g1 t1) ->
+  (forall g1 g2 a2 t2 c2, ids_ok (gdb g1) (gid g1) -> f g1 = Some (g2, a2, t2, c2) -> post g1 g2 t2) ->
+  alt lv x f = Some (g', a, tr, c) -> post g g' tr.
+Proof.
+  intros I Hx Hf H. unfold alt in H. destruct x as [[[[g1 a1] t1] c1]|]; [|discriminate].
+  pose proof (Hx _ _ _ _ eq_refl) as P1.
+  destruct (lv c1) as [c'|]; [inversion H; subst; exact P1|].
+  destruct (f g1) as [[[[g2 a2] t2] c2]|] eqn:E; [|discriminate]. inversion H; subst; clear H.
+  eapply post_trans; [exact P1|]. eapply Hf; [|exact E].
+  eapply post_ids_ok; eauto.
+Qed.
+
+Lemma mapflag_some fl x g' a tr c : mapflag fl x = Some (g', a, tr, c) -> exists c0, x = Some (g', a, tr, c0).
+Proof. destruct x as [[[[g1 a1] t1] c1]|]; simpl; intros H; inversion H; subst. eauto. Qed.
+
+Lemma tag_some o x g' a tr c : tag o x = Some (g', a, tr, c) -> exists t0, tr = o :: t0 /\ x = Some (g', a, t0, c).
+Proof. destruct x as [[[[g1 a1] t1] c1]|]; simpl; intros H; inversion H; subst. eauto. Qed.
 
 Section Loops.
   Variable uf : nat.
   Variable rec : list goal -> store -> glob -> res.
   Hypothesis Hrec : good_rec rec.
 
-  Lemma bindr_post (x : res) (f : glob -> res) g g' a tr :
-    ids_ok (gdb g) (gid g) ->
-    (forall g1 a1 t1, x = Some (g1, a1, t1) -> post g g1 t1) ->
-    (forall g1 g2 a2 t2, ids_ok (gdb g1) (gid g1) -> f g1 = Some (g2, a2, t2) -> post g1 g2 t2) ->
-    bindr x f = Some (g', a, tr) -> post g g' tr.
+  Lemma scanq_post args r s : forall l g g' a tr c, ids_ok (gdb g) (gid g) ->
+    scanq uf rec args r s l g = Some (g', a, tr, c) -> post g g' tr.
   Proof.
-    intros I Hx Hf H. unfold bindr in H. destruct x as [[[g1 a1] t1]|]; [|discriminate].
-    destruct (f g1) as [[[g2 a2] t2]|] eqn:E; [|discriminate]. inversion H; subst; clear H.
-    pose proof (Hx _ _ _ eq_refl) as P1. eapply post_trans; [exact P1|]. eapply Hf; [|exact E].
-    eapply post_ids_ok; eauto.
-  Qed.
-
-  Lemma scanq_post args r s : forall l g g' a tr, ids_ok (gdb g) (gid g) ->
-    scanq uf rec args r s l g = Some (g', a, tr) -> post g g' tr.
-  Proof.
-    induction l as [|f l IH]; intros g g' a tr I H; cbn [scanq] in H.
+    induction l as [|f l IH]; intros g g' a tr c I H; cbn [scanq] in H.
     - inversion H; subst. apply post_refl.
     - destruct (answer_match_fast uf s (gn g) args (fargs f)) as [u n1]. destruct u as [s'| | |]; try discriminate.
-      + eapply bindr_post; [exact I| |intros g1 g2 a2 t2 I1 E; eapply IH; eauto|exact H].
-        intros g1 a1 t1 E. destruct (rec r s' (set_n g n1)) as [[[g0 a0] t0]|] eqn:ER; [|discriminate]. inversion E; subst; clear E.
+      + eapply alt_post; [exact I| |intros g1 g2 a2 t2 c2 I1 E; eapply IH; eauto|exact H].
+        intros g1 a1 t1 c1 E. apply tag_some in E as [t0 [-> ER]].
         apply (@post_cons g (set_n g n1) g1 (OAns (fid f) (map (den_fast s') args)) t0); simpl; auto.
         eapply Hrec; [|exact ER]. exact I.
       + apply (@post_trans g (set_n g n1) g' [] tr).
@@ -245,17 +255,16 @@ Section Loops.
         * eapply IH; [|exact H]. exact I.
   Qed.
 
-  Lemma scanr_post k args r s : forall l g g' a tr, ids_ok (gdb g) (gid g) ->
-    scanr uf rec k args r s l g = Some (g', a, tr) -> post g g' tr.
+  Lemma scanr_post k args r s : forall l g g' a tr c, ids_ok (gdb g) (gid g) ->
+    scanr uf rec k args r s l g = Some (g', a, tr, c) -> post g g' tr.
   Proof.
-    induction l as [|f l IH]; intros g g' a tr I H; cbn [scanr] in H.
+    induction l as [|f l IH]; intros g g' a tr c I H; cbn [scanr] in H.
     - inversion H; subst. apply post_refl.
     - destruct (answer_match_fast uf s (gn g) args (fargs f)) as [u n1]. destruct u as [s'| | |]; try discriminate.
       + destruct (has_id (fid f) (gdb g k)) eqn:HI.
-        * eapply bindr_post; [exact I| |intros g1 g2 a2 t2 I1 E; eapply IH; eauto|exact H].
-          intros g1 a1 t1 E.
+        * eapply alt_post; [exact I| |intros g1 g2 a2 t2 c2 I1 E; eapply IH; eauto|exact H].
+          intros g1 a1 t1 c1 E. apply tag_some in E as [tx [-> ER]].
           set (g0 := mkg (upd k (del_id (fid f) (gdb g k)) (gdb g)) (gid g) n1 (gw g)) in *.
-          destruct (rec r s' g0) as [[[gx ax] tx]|] eqn:ER; [|discriminate]. inversion E; subst; clear E.
           assert (V: valid_out (gdb g) (gid g) (ORet k (fid f) (map (den_fast s') args))) by (simpl; apply has_id_in; exact HI).
           apply (@post_cons g g0 g1 _ tx V); simpl; auto.
           eapply Hrec; [|exact ER].
@@ -268,17 +277,17 @@ Section Loops.
         * eapply IH; [|exact H]. exact I.
   Qed.
 
-  Lemma tryclauses_post args r s : forall cls g g' a tr, ids_ok (gdb g) (gid g) ->
-    tryclauses uf rec args r s cls g = Some (g', a, tr) -> post g g' tr.
+  Lemma tryclauses_post args r s : forall cls g g' a tr c, ids_ok (gdb g) (gid g) ->
+    tryclauses uf rec args r s cls g = Some (g', a, tr, c) -> post g g' tr.
   Proof.
-    induction cls as [|c cs IH]; intros g g' a tr I H; cbn [tryclauses] in H.
+    induction cls as [|cl cs IH]; intros g g' a tr c I H; cbn [tryclauses] in H.
     - inversion H; subst. apply post_refl.
-    - destruct (unify_arrays_fast uf s args (map (shift (gn g)) (chead c))) as [s'| | |]; try discriminate.
-      + apply (@post_trans g (set_n g (gn g + cnv c)) g' [] tr).
+    - destruct (unify_arrays_fast uf s args (map (shift (gn g)) (chead cl))) as [s'| | |]; try discriminate.
+      + apply (@post_trans g (set_n g (gn g + cnv cl)) g' [] tr).
         * apply post_same; reflexivity.
-        * eapply bindr_post; [exact I| |intros g1 g2 a2 t2 I1 E; eapply IH; eauto|exact H].
-          intros g1 a1 t1 E. eapply Hrec; [|exact E]. exact I.
-      + apply (@post_trans g (set_n g (gn g + cnv c)) g' [] tr).
+        * eapply alt_post; [exact I| |intros g1 g2 a2 t2 c2 I1 E; eapply IH; eauto|exact H].
+          intros g1 a1 t1 c1 E. eapply Hrec; [|exact E]. exact I.
+      + apply (@post_trans g (set_n g (gn g + cnv cl)) g' [] tr).
         * apply post_same; reflexivity.
         * eapply IH; [|exact H]. exact I.
   Qed.
@@ -290,24 +299,24 @@ Section Solve.
 
   Lemma solve_good : forall n, good_rec (solve uf prog n).
   Proof.
-    induction n as [|n IH]; intros gs s g g' a tr I H; [discriminate|].
+    induction n as [|n IH]; intros gs s g g' a tr c I H; [discriminate|].
     cbn [solve] in H. destruct (gw g) as [|w]; [discriminate|].
     set (gt := mkg (gdb g) (gid g) (gn g) w) in *.
     assert (I' : ids_ok (gdb gt) (gid gt)) by exact I.
     change (post gt g' tr). clearbody gt. clear I. rename g into g_before. rename gt into g. rename I' into I.
-    destruct gs as [|[x y|name args|front t|t|t] r].
+    destruct gs as [|[x y|name args|front t|t|t| | |ga gb|gc gt ge| | ] r].
     - inversion H; subst. apply post_refl.
     - destruct (unify_fast uf s x y) as [s'| | |]; try discriminate.
       + eapply IH; eauto.
       + inversion H; subst. apply post_refl.
-    - eapply bindr_post; [exact I| | |exact H].
-      + intros g1 a1 t1 E. eapply scanq_post; [exact IH|exact I|exact E].
-      + intros g1 g2 a2 t2 I1 E. eapply tryclauses_post; [exact IH|exact I1|exact E].
+    - eapply alt_post; [exact I| | |exact H].
+      + intros g1 a1 t1 c1 E. eapply scanq_post; [exact IH|exact I|exact E].
+      + intros g1 g2 a2 t2 c2 I1 E. eapply tryclauses_post; [exact IH|exact I1|exact E].
     - destruct (callable (den_fast s t)) as [[name args]|]; [|eapply IH; eauto].
       destruct (answer_init_fast s args (gn g)) as [stored n1].
       set (k := (name, length args)) in *. set (f := mkfact (gid g) stored) in *.
       set (g0 := mkg (upd k (ins front f (gdb g k)) (gdb g)) (S (gid g)) n1 (gw g)) in *.
-      destruct (solve uf prog n r s g0) as [[[g1 a1] t1]|] eqn:E; [|discriminate]. inversion H; subst; clear H.
+      apply tag_some in H as [t1 [-> E]].
       assert (V: valid_out (gdb g) (gid g) (OIns k front f)) by reflexivity.
       apply (@post_cons g g0 g' _ t1 V); simpl; auto; [lia|].
       eapply IH; [|exact E].
@@ -319,7 +328,7 @@ Section Solve.
       set (k := (name, length args)) in *.
       destruct (rallh uf s args (gdb g k) (gn g)) as [[[keep gone] n1]|] eqn:RA; [|discriminate].
       set (g0 := mkg (upd k keep (gdb g)) (gid g) n1 (gw g)) in *.
-      destruct (solve uf prog n r s g0) as [[[g1 a1] t1]|] eqn:E; [|discriminate]. inversion H; subst; clear H.
+      apply tag_some in H as [t1 [-> E]].
       pose proof I as [I1 _].
       destruct (@rallh_spec uf s args _ _ _ _ _ (I1 k) RA) as [A [B C]].
       assert (V: valid_out (gdb g) (gid g) (ORAll k gone)) by (simpl; auto).
@@ -331,24 +340,34 @@ Section Solve.
       * intros k0. rewrite E0. apply V1.
       * intros k0 f0. rewrite E0. apply V2.
       * intros k0 k1 i. rewrite !E0. apply V3.
+    - (* fail *) inversion H; subst. apply post_refl.
+    - (* ! *) apply mapflag_some in H as [c0 E]. eapply IH; eauto.
+    - (* ; *) eapply alt_post; [exact I| | |exact H].
+      + intros g1 a1 t1 c1 E. eapply IH; [exact I|exact E].
+      + intros g1 g2 a2 t2 c2 I1 E. eapply IH; [exact I1|exact E].
+    - (* -> ; *) eapply alt_post; [exact I| | |exact H].
+      + intros g1 a1 t1 c1 E. eapply IH; [exact I|exact E].
+      + intros g1 g2 a2 t2 c2 I1 E. eapply IH; [exact I1|exact E].
+    - (* end of a clause body *) apply mapflag_some in H as [c0 E]. eapply IH; eauto.
+    - (* end of a condition *) apply mapflag_some in H as [c0 E]. eapply IH; eauto.
   Qed.
 
   (* every database update issued from compiled code is an atomic list operation on the list that is
      current at that moment, and the database after the run is their fold: no modification is lost *)
-  Theorem prog_no_lost_update n gs s g g' a tr :
-    ids_ok (gdb g) (gid g) -> solve uf prog n gs s g = Some (g', a, tr) ->
+  Theorem prog_no_lost_update n gs s g g' a tr c :
+    ids_ok (gdb g) (gid g) -> solve uf prog n gs s g = Some (g', a, tr, c) ->
     valid_trace (gdb g) (gid g) tr /\ (forall k, gdb g' k = apply_outs tr (gdb g) k) /\ ids_ok (gdb g') (gid g').
   Proof.
-    intros I H. pose proof (@solve_good n gs s g g' a tr I H) as P. destruct P as [V [E N]].
+    intros I H. pose proof (@solve_good n gs s g g' a tr c I H) as P. destruct P as [V [E N]].
     split; auto. split; auto. eapply post_ids_ok; eauto. repeat split; eauto.
   Qed.
 
   (* over all retract goals of the run, however nested, and all retractall calls: every Answer is removed
      (and returned by a retract) at most once *)
-  Theorem prog_retract_at_most_once n gs s g g' a tr :
-    ids_ok (gdb g) (gid g) -> solve uf prog n gs s g = Some (g', a, tr) -> NoDup (removed tr).
+  Theorem prog_retract_at_most_once n gs s g g' a tr c :
+    ids_ok (gdb g) (gid g) -> solve uf prog n gs s g = Some (g', a, tr, c) -> NoDup (removed tr).
   Proof.
-    intros I H. destruct (@solve_good n gs s g g' a tr I H) as [V _].
+    intros I H. destruct (@solve_good n gs s g g' a tr c I H) as [V _].
     apply (@valid_trace_removed tr (gdb g) (gid g) [] I V); [intros i []|constructor].
   Qed.
 End Solve.
